@@ -72,8 +72,17 @@ class CompleteTaskHandler(StabilizeHandler[CompleteTask]):
         """Inner handle logic to be retried."""
 
         def on_task(stage: StageExecution, task: TaskExecution) -> None:
+            # A REDIRECT completion whose jump has already been applied is stale: the stage
+            # was re-armed (its _jump_count moved on) and the task may be RUNNING again in the
+            # next loop iteration - completing it now would wedge that iteration.
+            stale_redirect = (
+                message.status == WorkflowStatus.REDIRECT
+                and message.jump_count is not None
+                and message.jump_count != int(stage.context.get("_jump_count", 0) or 0)
+            )
+
             # Idempotency check - only complete tasks that are RUNNING
-            if task.status != WorkflowStatus.RUNNING:
+            if task.status != WorkflowStatus.RUNNING or stale_redirect:
                 logger.debug(
                     "Ignoring CompleteTask for %s (%s) - already %s",
                     task.name,
